@@ -41,7 +41,7 @@ IsFasta(c) == \E j \in 1..Len(c[2]) : c[2][j] = "fasta"
 Cmds == {c \in CmdsAll : c[1] \in CmdSet /\ (~FastaOnly \/ IsFasta(c))}
 
 All == SetToSeq({<<ti, tp, lc, cm>> : ti \in 1..Len(Tables), tp \in 1..2, lc \in Locators, cm \in Cmds})
-Picked == SelectSeq([j \in 1..Len(All) |-> j], LAMBDA j : j % Stride = Offset % Stride)
+Picked == SelectSeq([j \in 1..Len(All) |-> j], LAMBDA j : (j + (j \div Stride) + (j \div (Stride * Stride))) % Stride = Offset % Stride)
 
 CaseJson(j) ==
   LET x == All[j] IN
